@@ -20,6 +20,10 @@ pub enum Profile {
     TwoFrequent,
     /// groups of exactly equal counts (tie classes)
     Ties(u8),
+    /// the cheapest profile forcing a k-ary Huffman code of maximal depth for the given n and
+    /// alphabet (k = 4 or 2): k leaves of weight 1 at the bottom, then k-1 leaves per level, each
+    /// heavier than the subtree two levels below
+    Deep(u8),
 }
 
 #[derive(Clone, Copy, Debug, PartialEq, Eq, Hash, Serialize, Deserialize)]
@@ -77,12 +81,48 @@ fn fib_weights(d: usize) -> Vec<f64> {
     f
 }
 
+/// counts (largest first) of the deepest k-ary Huffman shape that fits n symbols and d distinct
+pub fn deep_counts(n: usize, d: usize, k: usize) -> Vec<usize> {
+    // bottom level: k leaves of weight 1; level j adds k-1 leaves of weight a_j = max(a_{j-1}, S_{j-2}+1)
+    if d < k || n < k {
+        let mut c = vec![1usize; d.min(n)];
+        if let Some(f) = c.first_mut() {
+            *f += n - d.min(n);
+        }
+        return c;
+    }
+    let mut counts: Vec<usize> = vec![1; k];
+    let mut s_prev2 = 1usize; // S_{j-2}
+    let mut s_prev = k; // S_{j-1}
+    let mut a_prev = 1usize;
+    loop {
+        let a = a_prev.max(s_prev2 + 1);
+        let add = (k - 1) * a;
+        if counts.len() + (k - 1) > d || s_prev + add > n {
+            break;
+        }
+        for _ in 0..k - 1 {
+            counts.push(a);
+        }
+        s_prev2 = s_prev;
+        s_prev += add;
+        a_prev = a;
+    }
+    let last = counts.len() - 1;
+    counts[last] += n - s_prev;
+    counts.reverse();
+    counts
+}
+
 impl Recipe {
     /// exact counts per alphabet symbol (sum == n; symbols beyond n are dropped)
     pub fn counts(&self) -> Vec<usize> {
         let d = self.alphabet.len().min(self.n.max(1));
         if self.n == 0 || d == 0 {
             return vec![];
+        }
+        if let Profile::Deep(k) = self.profile {
+            return deep_counts(self.n, d, if k == 2 { 2 } else { 4 });
         }
         let w: Vec<f64> = match self.profile {
             Profile::Uniform => vec![1.0; d],
@@ -96,6 +136,7 @@ impl Recipe {
             Profile::Fib => fib_weights(d),
             Profile::OneRare => (0..d).map(|j| if j == 0 { 1e9 } else { 1e-9 }).collect(),
             Profile::TwoFrequent => (0..d).map(|j| if j < 2 { 1e6 } else { 1.0 }).collect(),
+            Profile::Deep(_) => unreachable!(),
             Profile::Ties(g) => {
                 let g = g.max(1) as usize;
                 (0..d).map(|j| (1u64 << ((j / g).min(40))) as f64).collect()
@@ -291,6 +332,8 @@ fn profile() -> BoxedStrategy<Profile> {
         1 => Just(Profile::OneRare),
         1 => Just(Profile::TwoFrequent),
         2 => (1u8..=5).prop_map(Profile::Ties),
+        2 => Just(Profile::Deep(4)),
+        2 => Just(Profile::Deep(2)),
     ]
     .boxed()
 }
